@@ -5,7 +5,7 @@
 //! witness.  Under `cfg(verif_replay)` (native build used to *replay* a
 //! counterexample against the real code with the std containers) `any_*` pop
 //! the concrete bytes that Kani's concrete playback printed, in call order.
-#![allow(dead_code, unused_macros, unused_imports)]
+#![allow(dead_code, unused_macros, unused_imports, long_running_const_eval)]
 
 #[cfg(kani)]
 mod imp {
@@ -242,5 +242,85 @@ pub fn rc_byte(b: u8) -> u8 {
         b'g' => b'c',
         b't' | b'u' => b'a',
         o => o,
+    }
+}
+
+
+// ---------------------------------------------------------------------------
+// Oracle tables evaluated by the COMPILER (const fn), so that harnesses need no
+// 4^k-iteration loops at verification time.  Independent of the repository:
+// written from the property text (canonical = not larger than its own reverse
+// complement; columns = canonical k-mers in increasing code order).
+
+pub const fn rc_code_const(x: u64, k: usize) -> u64 {
+    let mut r = 0u64;
+    let mut x = x;
+    let mut j = 0;
+    while j < k {
+        r = r * 4 + (3 - (x % 4));
+        x /= 4;
+        j += 1;
+    }
+    r
+}
+
+/// T = 4^K.  Entry x = column (rank among canonical codes) of the canonical
+/// form of code x.
+pub const fn oracle_column_table<const K: usize, const T: usize>() -> [u16; T] {
+    // rank of each canonical code
+    let mut rank = [0u16; T];
+    let mut n = 0u16;
+    let mut z = 0usize;
+    while z < T {
+        if (z as u64) <= rc_code_const(z as u64, K) {
+            rank[z] = n;
+            n += 1;
+        }
+        z += 1;
+    }
+    let mut out = [0u16; T];
+    let mut x = 0usize;
+    while x < T {
+        let r = rc_code_const(x as u64, K) as usize;
+        let c = if x < r { x } else { r };
+        out[x] = rank[c];
+        x += 1;
+    }
+    out
+}
+
+/// C = number of canonical K-mers.  Entry p = the p-th canonical code.
+pub const fn oracle_canonical_list<const K: usize, const T: usize, const C: usize>() -> [u64; C] {
+    let mut out = [0u64; C];
+    let mut n = 0usize;
+    let mut z = 0usize;
+    while z < T {
+        if (z as u64) <= rc_code_const(z as u64, K) {
+            out[n] = z as u64;
+            n += 1;
+        }
+        z += 1;
+    }
+    out
+}
+
+pub static OCOL_K1: [u16; 4] = oracle_column_table::<1, 4>();
+pub static OCOL_K2: [u16; 16] = oracle_column_table::<2, 16>();
+pub static OCOL_K3: [u16; 64] = oracle_column_table::<3, 64>();
+pub static OCOL_K4: [u16; 256] = oracle_column_table::<4, 256>();
+pub static OCOL_K5: [u16; 1024] = oracle_column_table::<5, 1024>();
+pub static OCOL_K6: [u16; 4096] = oracle_column_table::<6, 4096>();
+pub static OCOL_K7: [u16; 16384] = oracle_column_table::<7, 16384>();
+pub static OCANON_K1: [u64; 2] = oracle_canonical_list::<1, 4, 2>();
+pub static OCANON_K2: [u64; 10] = oracle_canonical_list::<2, 16, 10>();
+pub static OCANON_K3: [u64; 32] = oracle_canonical_list::<3, 64, 32>();
+pub static OCANON_K4: [u64; 136] = oracle_canonical_list::<4, 256, 136>();
+
+pub fn expected_count(k: usize) -> usize {
+    let p = pow4(k) as usize;
+    if k % 2 == 0 {
+        (p + pow4(k / 2) as usize) / 2
+    } else {
+        p / 2
     }
 }
